@@ -116,6 +116,15 @@ func encodedLineBreak(options option.ExportOptions) []byte {
 var errLineBreakInFixedLengthField = NewDataEncodingError("a field containing a line break cannot be written in fixed-length format")
 
 func encodeFixedLengthFormat(ctx context.Context, fp io.Writer, view *View, options option.ExportOptions) error {
+	if options.DelimiterPositions != nil && len(options.DelimiterPositions) != view.FieldLen() {
+		// The positions describe the table as it was loaded; columns have been added or dropped since then.
+		// Writing with them would cut fields off or run them together.
+		if options.SingleLine {
+			return NewDataEncodingError("the number of delimiter positions does not match the number of fields")
+		}
+		options.DelimiterPositions = nil
+	}
+
 	if options.DelimiterPositions == nil {
 		m := fixedlen.NewMeasure()
 		m.Encoding = options.Encoding
